@@ -64,6 +64,7 @@ type passSource struct {
 	*shutter.Shutter
 	blocks []fkBlock
 	h      bstream.Handler
+	pb     func(fkBlock) *pbbstream.Block // nil = fkPB (no payload)
 }
 
 func (s *passSource) Run() {
@@ -71,7 +72,11 @@ func (s *passSource) Run() {
 		if s.IsTerminating() {
 			return
 		}
-		if err := s.h.ProcessBlock(fkPB(b), nil); err != nil {
+		pb := s.pb
+		if pb == nil {
+			pb = fkPB
+		}
+		if err := s.h.ProcessBlock(pb(b), nil); err != nil {
 			s.Shutdown(err)
 			return
 		}
